@@ -103,6 +103,7 @@ package getty
 //@ ghost var sent_codec int
 //@ ghost var sent_body any
 //@ ghost var sent_err_nil bool
+//@ ghost var sent_session any
 //@ ghost var regrm_sent bool
 //@ ghost var regtm_sent bool
 //@ ghost var has_rm_resources bool
@@ -116,15 +117,15 @@ package getty
 // handed over is recorded. SendAsync itself is verified under C14.
 //@ func (*GettyRemoting).SendAsync
 //@   trusted
-//@   modifies ghost.sent, ghost.sent_id, ghost.sent_type, ghost.sent_codec, ghost.sent_body, ghost.sent_err_nil, ghost.regrm_sent, ghost.regtm_sent
-//@   ensures ghost.sent == old(ghost.sent) + 1 && ghost.sent_id == msg.ID && ghost.sent_type == msg.Type && ghost.sent_codec == msg.Codec && ghost.sent_body == msg.Body
+//@   modifies ghost.sent, ghost.sent_id, ghost.sent_type, ghost.sent_codec, ghost.sent_body, ghost.sent_err_nil, ghost.regrm_sent, ghost.regtm_sent, ghost.sent_session
+//@   ensures ghost.sent == old(ghost.sent) + 1 && ghost.sent_id == msg.ID && ghost.sent_type == msg.Type && ghost.sent_codec == msg.Codec && ghost.sent_body == msg.Body && ghost.sent_session == s
 //@   ensures ghost.sent_err_nil == (result == nil)
 //@   ensures ghost.regrm_sent == (old(ghost.regrm_sent) || isT(msg.Body, message.RegisterRMRequest)) && ghost.regtm_sent == (old(ghost.regtm_sent) || isT(msg.Body, message.RegisterTMRequest))
 
 //@ func (*GettyRemotingClient).SendAsyncResponse
 //@   prop C15 C14
 //@   requires client != nil && client.gettyRemoting != nil
-//@   modifies ghost.sent, ghost.sent_id, ghost.sent_type, ghost.sent_codec, ghost.sent_body, ghost.sent_err_nil, ghost.regrm_sent, ghost.regtm_sent
+//@   modifies ghost.sent, ghost.sent_id, ghost.sent_type, ghost.sent_codec, ghost.sent_body, ghost.sent_err_nil, ghost.regrm_sent, ghost.regtm_sent, ghost.sent_session
 //@   ensures id: ghost.sent == old(ghost.sent) + 1 && ghost.sent_id == msgID && ghost.sent_type == 1 && ghost.sent_codec == 1 && ghost.sent_body == msg
 //@   ensures result-is-transport: ghost.sent_err_nil == (result == nil)
 //@   ensures frame: wrote_nothing()
@@ -319,4 +320,5 @@ package getty
 //@   requires ghost.sent == 0 && !ghost.regrm_sent && !ghost.regtm_sent && sessionManager != nil && session != nil
 //@   ensures announce-tm: ghost.regtm_sent && ghost.sent >= 1
 //@   ensures C19/announce-rm: ghost.has_rm_resources ==> ghost.regrm_sent
+//@   at return: assert announced-on-the-session-that-opened: ghost.regtm_sent && ghost.sent == 1 ==> ghost.sent_session == session
 //@   at return: assert unannounced-session-is-not-kept: localor("err", nil) != nil ==> !haskey(syncmap(sessionManager, "allSessions"), session)
